@@ -151,7 +151,7 @@ var c07Check = register("C07", "c07.source", func(c *sourceCase) error {
 	return nil
 })
 
-const c07Rule = "C07: (a) fresh child processes each run a rapid-generated history of non-swapping calls (all entry points, all languages, failing calls) and are then probed through the verif hook: the value returned by the first swap must be == crypto/rand.Reader (interface identity); NewMnemonic calls made through a recording tee around that source must equal the reference encoding of the first 4n/3 bytes the tee delivered; no output may repeat across processes or calls. One child in three runs under a hostile environment (every variable name that occurs as a literal in the code under test set to /dev/zero, 1, ...). Before the probe each child also makes 0..40 default-source calls of mixed sizes with nothing installed. (b) in-process: >= 4500 genuinely unswapped outputs of mixed sizes back to back, then every (n, language) through the tee; unswapped outputs are decoded and must show no run of >= 6 equal 0x00/0xff bytes, no >= 5 trailing zero bytes, no repetition, and every entropy bit within 8 sigma of 1/2. Non-trivial: a child whose history contains >= 1 call before the probe; distinct by (history, tee calls)"
+const c07Rule = "C07: (a) fresh child processes each run a rapid-generated history of non-swapping calls (all entry points, all languages, failing calls) and are then probed through the verif hook: the value returned by the first swap must be == crypto/rand.Reader (interface identity); NewMnemonic calls made through a recording tee around that source must equal the reference encoding of the first 4n/3 bytes the tee delivered; no output may repeat across processes or calls. One child in three runs under a hostile environment (every variable name that occurs as a literal in the code under test set to /dev/zero, 1, ...). Before the probe each child also makes 0..40 default-source calls of mixed sizes with nothing installed. (b) in-process: >= 4500 genuinely unswapped outputs of mixed sizes back to back, then every (n, language) through the tee; unswapped outputs are decoded and must show no run of >= 6 equal 0x00/0xff bytes, no >= 5 trailing zero bytes, no repetition, and every entropy bit within 8 sigma of 1/2; every eighth round the bytes just drawn are served again by a replaying source and must give the same sentence. Non-trivial: a child whose history contains >= 1 call before the probe; distinct by (history, tee calls)"
 
 func TestC07_Children(t *testing.T) {
 	cov.Rule(c07Rule)
@@ -309,6 +309,16 @@ var c07InprocCheck = register("C07", "c07.inproc", func(c *inprocCase) error {
 					return failf("C07 repeated-output", "NewMnemonic(%d, %s) returned %q twice", n, l, got)
 				}
 				seen[got] = true
+				// a function of the source's bytes only: the same bytes served again give the same sentence
+				if round%8 == 0 {
+					replay := append([]byte(nil), drawn...)
+					bip39.VerifSwapRandSource(bytes.NewReader(replay))
+					again, err2, p2 := implNew(n, implLang[l])
+					bip39.VerifSwapRandSource(tee)
+					if p2 != nil || err2 != nil || again != got {
+						return failf("C07 not-a-function-of-source replay", "NewMnemonic(%d, %s) drew %x from crypto/rand.Reader and returned %q; served the same bytes again by a replaying source it returned (%q, %v, panic=%v)", n, l, drawn[:need], got, again, err2, p2)
+					}
+				}
 				si := (need - 16) / 4
 				count[si]++
 				for b := 0; b < need*8; b++ {
